@@ -113,7 +113,10 @@ def check_layout(ctx, rule, res, only_functions=None, label="", row_order=None):
                 continue
             n += 1
             desc = repr(e["shape"])
-            if e.get("how") == "as_strided":
+            if e.get("how") == "view" and e["shape"] == ["-1"] and not e.get("layout"):
+                ctx.violated(rule, kk, f"`{e['text'][:80]}` flattens with view(-1), which only works on memory that is contiguous in its logical order: a cotangent allocated with ones_like(value), a key or "
+                             "a gradient returned by autograd has the strides of the user's tensor — for a transposed / permuted one view(-1) raises RuntimeError where reshape copies", e["loc"])
+            elif e.get("how") == "as_strided":
                 ctx.violated(rule, kk, f"`{e['text'][:80]}` re-reads the row-major block of values through the strides {e.get('strides')}: it equals view(shape) only for the contiguous strides of that "
                              "shape — for a non-contiguous key (a transposed weight: shape (2, 3), strides (1, 2)) entry (i, j) receives the value that belongs to another entry", e["loc"])
             elif RESHAPE_OK.match(desc):
